@@ -175,11 +175,15 @@ type World struct {
 	Staked    map[int]bool   // key index -> has staked (learned from receipts)
 	FreshSeq  int
 	GovBias   bool // prefer staking / voting transactions (several voters on the same tallies)
+	FDBias    bool // prefer fee-delegated calls that carry an amount, burn gas and fail (see SetupFeeDelegationScene)
 	TieBias   bool // equal stakes, and votes on one issue for values that are one number spelt differently: tied candidates
 }
 
 // PreferredSender biases the sender towards accounts for which the kind can succeed.
 func (w *World) PreferredSender(t *rapid.T, kind string) (int, bool) {
+	if w.FDBias && w.NUsers > 1 && rapid.IntRange(0, 2).Draw(t, "fdSender") > 0 {
+		return 1, true // several transactions of one sender in the block
+	}
 	switch kind {
 	case "votebp", "votedao", "unstake":
 		var st []int
@@ -227,6 +231,9 @@ func (w *World) DrawKind(t *rapid.T) string {
 	if w.GovBias && w.DPoS {
 		kinds = append(kinds, "stake", "stake", "stake", "votebp", "votebp", "votebp", "votebp", "votedao", "votedao", "unstake")
 	}
+	if w.FDBias && len(w.Contracts) > 0 && rapid.Bool().Draw(t, "fdKind") {
+		return rapid.SampledFrom([]string{"feedeleg", "feedeleg", "feedeleg", "transfer", "transfer-to-contract"}).Draw(t, "kind")
+	}
 	if w.TieBias && w.DPoS && rapid.Bool().Draw(t, "tieKind") {
 		// many voters with a stake voting on one issue: what makes candidates tie
 		return rapid.SampledFrom([]string{"stake", "stake", "votedao", "votedao", "votedao", "votebp"}).Draw(t, "kind")
@@ -261,6 +268,10 @@ func (w *World) DrawTxKind(t *rapid.T, kind string, from int, nonce uint64, bal 
 			s.Recipient = rapid.SampledFrom(w.Contracts).Draw(t, "ctr")
 		}
 		s.Amount = small()
+		if rapid.IntRange(0, 2).Draw(t, "tinyFunding") == 0 {
+			// a contract that owns about as much as one fee
+			s.Amount = new(big.Int).Mul(big.NewInt(int64(rapid.SampledFrom([]int{1, 5, 20, 100}).Draw(t, "tiny"))), big.NewInt(1e15))
+		}
 		if rapid.Bool().Draw(t, "withPayload") {
 			s.Payload = []byte("x")
 		}
@@ -381,7 +392,10 @@ func (w *World) DrawTxKind(t *rapid.T, kind string, from int, nonce uint64, bal 
 		var ops [][]string
 		n := rapid.IntRange(1, 4).Draw(t, "nops")
 		for i := 0; i < n; i++ {
-			switch rapid.IntRange(0, 4).Draw(t, "op") {
+			switch rapid.IntRange(0, 5).Draw(t, "op") {
+			case 5:
+				// expensive code: the fee can exceed what a poorly funded (fee-delegating) contract owns
+				ops = append(ops, []string{"burn", rapid.SampledFrom([]string{"20000", "200000", "2000000"}).Draw(t, "burn")})
 			case 0, 1:
 				ops = append(ops, []string{"set", rapid.SampledFrom([]string{"a", "b", "c", "_fd"}).Draw(t, "k"), rapid.SampledFrom([]string{"1", "2", ""}).Draw(t, "v")})
 			case 2:
@@ -399,12 +413,27 @@ func (w *World) DrawTxKind(t *rapid.T, kind string, from int, nonce uint64, bal 
 		if kind == "call-fail" && rapid.Bool().Draw(t, "failAtEnd") {
 			ops = append(ops, []string{"fail", "boom"})
 		}
+		if kind == "feedeleg" && w.FDBias {
+			if rapid.Bool().Draw(t, "fdBurn") {
+				ops = append(ops, []string{"burn", rapid.SampledFrom([]string{"20000", "200000", "2000000"}).Draw(t, "burn")})
+			}
+		}
+		if kind == "feedeleg" && rapid.IntRange(0, 2).Draw(t, "fdFails") == 0 {
+			// a fee-delegated call that fails at run time: the contract pays the fee of the failure
+			ops = append(ops, []string{"fail", "boom"})
+		}
 		if kind == "call-sysfail" {
 			ops = append(ops, []string{"sysfail"})
 		}
 		s.Payload = StubProgram(ops...)
 		s.Amount = new(big.Int).Mul(big.NewInt(int64(rapid.IntRange(0, 2).Draw(t, "callAmt"))), Aergo)
 		s.GasLimit = uint64(rapid.SampledFrom([]int{0, 1500, 100000, 5000000}).Draw(t, "gas"))
+		if kind == "feedeleg" && w.FDBias && rapid.Bool().Draw(t, "fdNoLimit") {
+			s.GasLimit = 0
+			if s.Amount.Sign() == 0 {
+				s.Amount = new(big.Int).Set(Aergo)
+			}
+		}
 	}
 	// fault injection on otherwise plausible transactions
 	switch rapid.IntRange(0, 19).Draw(t, "fault") {
